@@ -1,0 +1,10 @@
+//go:build verif
+
+package protocol
+
+// Contracts for /verif (contract-based deductive verification). Comment-only.
+
+// Queues a message for the send loop (channels, goroutines): the body is outside the verifier's
+// subset. The contract promises nothing, so callers forget the whole heap at this call.
+//@ func (p *Protocol) SendMessage(msg) (err)
+//@   nobody
